@@ -48,6 +48,7 @@ func GenCfg(r *hx.Rng, c10 bool) dsx.Cfg {
 		c.AR = r.Intn(3)
 		c.AQ = r.Intn(3)
 	}
+	c.Stale = c.Route == "c" && !c.OneWay && r.Chance(12)
 	return c
 }
 
@@ -108,7 +109,8 @@ func randomChooser(r *hx.Rng, stopPct int) dsx.Chooser {
 			if r.Chance(45) { // a retryable answer on some live attempt
 				var c503 []int
 				for _, i := range class {
-					if strings.HasSuffix(opts[i], ":503:00") || strings.HasSuffix(opts[i], ":503:01") || strings.HasSuffix(opts[i], ":500:00") {
+					if strings.HasSuffix(opts[i], ":503:00") || strings.HasSuffix(opts[i], ":503:01") || strings.HasSuffix(opts[i], ":500:00") ||
+						strings.HasSuffix(opts[i], ":503:10") || strings.HasSuffix(opts[i], ":503:11") {
 						c503 = append(c503, i)
 					}
 				}
@@ -124,12 +126,21 @@ func randomChooser(r *hx.Rng, stopPct int) dsx.Chooser {
 			class = has("DR")
 		case x < 86:
 			class = has("CC")
-		case x < 92:
+		case x < 91:
 			class = has("PF")
-		case x < 95:
+		case x < 93:
 			class = has("HG")
-		default:
+		case x < 95:
+			class = has("W")
+		case x < 97:
 			class = has("TM")
+		case x < 99:
+			class = has("TR")
+		default:
+			class = has("TS")
+			if len(class) == 0 {
+				class = has("TM")
+			}
 		}
 		if len(class) == 0 {
 			return r.Intn(len(opts))
@@ -176,6 +187,47 @@ func persistChooser(kind string, arm int) dsx.Chooser {
 			}
 			if k > bestK {
 				bestK, best = k, i
+			}
+		}
+		return best
+	}
+}
+
+// scriptChooser drives an explicit list of label patterns, one per step, then stops. A pattern is a label; `*` in the
+// attempt position stands for the highest attempt index on offer (after a retry only the latest attempt is live). A
+// pattern that is not on offer ends the history.
+func scriptChooser(script []string) dsx.Chooser {
+	return func(step int, opts []string, done bool) int {
+		if step >= len(script) {
+			return -1
+		}
+		pat := script[step]
+		if !strings.Contains(pat, "*") {
+			for i, o := range opts {
+				if o == pat {
+					return i
+				}
+			}
+			return -1
+		}
+		parts := strings.SplitN(pat, "*", 2)
+		best, bestK := -1, -1
+		for i, o := range opts {
+			if !strings.HasPrefix(o, parts[0]) {
+				continue
+			}
+			rest := o[len(parts[0]):]
+			n := 0
+			for n < len(rest) && rest[n] >= '0' && rest[n] <= '9' {
+				n++
+			}
+			if n == 0 || rest[n:] != parts[1] {
+				continue
+			}
+			k := 0
+			fmt.Sscan(rest[:n], &k)
+			if k > bestK {
+				best, bestK = i, k
 			}
 		}
 		return best
@@ -250,6 +302,7 @@ func RunMany(c *hx.Ctx, prop string, n, par int, c10 bool) {
 		arm    int
 		labels int
 		part   [4]string // partial-response family: code, dt, after, pre
+		script []string  // kind "script:<family>": the labels to drive
 	}
 	jobs := make(chan job)
 	var wg sync.WaitGroup
@@ -260,7 +313,9 @@ func RunMany(c *hx.Ctx, prop string, n, par int, c10 bool) {
 			for j := range jobs {
 				var res dsx.Result
 				for try := 0; try < 3; try++ {
-					if j.kind == "partial" {
+					if strings.HasPrefix(j.kind, "script:") {
+						res = dsx.Run(j.cfg, scriptChooser(j.script), j.labels)
+					} else if j.kind == "partial" {
 						code := 200
 						fmt.Sscan(j.part[0], &code)
 						res = dsx.Run(j.cfg, partialChooser(code, j.part[1], j.part[2], j.part[3]), j.labels)
@@ -296,12 +351,24 @@ func RunMany(c *hx.Ctx, prop string, n, par int, c10 bool) {
 					c.Count(fmt.Sprintf("threshold.mr=%d.mq=%d", j.cfg.MR, j.cfg.MQ))
 					c.Count(fmt.Sprintf("ambient.ar=%d.aq=%d", j.cfg.AR, j.cfg.AQ))
 				}
+				if res.Reuse != "" {
+					c.Count("stale." + res.Reuse) // fresh = the pool handed out another object: TS is not offered
+				}
+				if strings.HasPrefix(j.kind, "script:") {
+					c.Count("family." + j.kind[7:])
+					if res.Labels == len(j.script) {
+						c.Count("family." + j.kind[7:] + ".complete")
+					}
+				}
+				if !strings.HasSuffix(res.Out, "tm=-") {
+					c.Count("terminate.calls")
+				}
 				if j.kind == "partial" {
 					c.Count("partial.after=" + strings.SplitN(j.part[2], ":", 2)[0])
 					if strings.Contains(","+res.Sched+",", ",E") || strings.Contains(res.Sched, ",X") || strings.Contains(res.Sched, ",DR") || strings.Contains(res.Sched, ",CC") {
 						c.Count("partial.wait-ended")
 					}
-				} else if j.kind != "" {
+				} else if j.kind != "" && !strings.HasPrefix(j.kind, "script:") {
 					c.Count("persistent." + j.kind)
 				}
 				if strings.Contains(res.Out, "dh:") && strings.Contains(res.Out, ",dr") {
@@ -313,6 +380,24 @@ func RunMany(c *hx.Ctx, prop string, n, par int, c10 bool) {
 	rng := c.Rng.Fork().Fork() // neighbouring seeds give shifted copies of one stream; two forks decorrelate them
 	// persistent failures: the retry loop to its end, for every retry count around the floor (3) and the loop budget (10)
 	np := 0
+	if c10 {
+		// the retries breaker at EACH retry decision of one request: max_retries 1 and 2, the others holding less than the
+		// limit (so the breaker must admit every retry: the request's own previous retry slot is given back first), and
+		// at the limit (every retry refused); two and more consecutive retriable failures of the one request
+		for _, kind := range []string{"x", "r"} {
+			for _, mr := range []int{1, 2} {
+				for _, ar := range []int{0, mr - 1, mr} {
+					if ar == 0 && mr == 2 && kind == "r" && !c.Thorough() {
+						continue
+					}
+					cfg := dsx.Cfg{Route: "c", RetryOn: true, N: rng.Pick([]int{0, 2, 3, 4}), Data: rng.Chance(30), LongGlobal: true,
+						MR: mr, AR: ar, MQ: rng.Pick([]int{0, 2})}
+					jobs <- job{cfg: cfg, kind: kind, labels: 20}
+					np++
+				}
+			}
+		}
+	}
 	for _, kind := range []string{"x", "r", "pf"} {
 		for _, nr := range []int{0, 1, 3, 4, 9, 10, 11} {
 			if !c.Thorough() && rng.Chance(50) {
@@ -356,6 +441,61 @@ func RunMany(c *hx.Ctx, prop string, n, par int, c10 bool) {
 					code = "503"
 				}
 				jobs <- job{cfg: cfg, kind: "partial", labels: 8, part: [4]string{code, dt, after, pre}}
+				np++
+			}
+		}
+	}
+	// scripted families of the proxy3 growth slice
+	type fam struct {
+		name    string
+		cfg     func() dsx.Cfg
+		scripts [][]string
+	}
+	retryCfg := func() dsx.Cfg {
+		cfg := dsx.Cfg{Route: "c", RetryOn: true, N: rng.Pick([]int{0, 1, 2}), Data: rng.Chance(30), Trailers: rng.Chance(15)}
+		if c10 {
+			cfg.MR = rng.Pick([]int{0, 1, 2})
+			cfg.MQ = rng.Pick([]int{0, 2})
+		}
+		return cfg
+	}
+	fams := []fam{
+		// a retried attempt answered WITH a body / trailers, then the request ends in a reply MOSN generates itself: upstream
+		// reset with a reason that is not retried, no healthy host left at the retry, pool overflow at the retry, the global
+		// timeout, TerminateStream — the local reply must not carry the parts of the abandoned exchange
+		{"body", retryCfg, [][]string{
+			{"S", "R*:503:10", "X*:StreamRemoteReset"}, {"S", "R*:503:01", "X*:UpstreamReset"}, {"S", "R*:503:10", "X*:StreamOverflow"},
+			{"S", "HG", "R*:503:10"}, {"S", "PFo", "R*:503:10"}, {"S", "PFo", "R*:503:01"}, {"S", "R*:503:10", "GT"},
+			{"S", "R*:503:10", "W", "GT"}, {"S", "R*:503:10", "TM418"}, {"S", "R*:503:10", "R*:503:01", "X*:StreamRemoteReset"},
+			{"S", "R*:503:10", "R*:200:00"}, {"S", "R*:503:10", "R*:200:01"}, {"S", "B*:503:10", "X*:StreamLocalReset"},
+		}},
+		// TerminateStream on a kept handler of a finished request whose pooled object this request runs on: ignored, the
+		// request gets its own response (or its own terminate reply)
+		{"stale", func() dsx.Cfg { cfg := retryCfg(); cfg.Stale = true; cfg.LongGlobal = true; return cfg }, [][]string{
+			{"S", "TS419", "R*:200:10"}, {"S", "TS419", "TM418"}, {"S", "X*:ConnectionFailed", "TS419", "R*:200:00"},
+			{"S", "TS419", "TS419", "R*:404:00"}, {"S", "TS419", "X*:StreamRemoteReset"},
+		}},
+		// TerminateStream with an in-flight upstream response landing inside it (after its claim of the response slot)
+		{"raced", retryCfg, [][]string{
+			{"S", "TR418:*:10"}, {"S", "TR418:*:11"}, {"S", "X*:ConnectionFailed", "TR418:*:10"}, {"S", "W", "TR418:*:11", "R*:200:00"},
+			{"S", "TM418", "R*:200:10"},
+		}},
+		// a retry (connection failure, retriable status) some time after the request was sent, then silence: the global timeout
+		// fires at its deadline measured from the FIRST attempt
+		{"timer", func() dsx.Cfg { cfg := retryCfg(); cfg.Codes = nil; return cfg }, [][]string{
+			{"S", "W", "X*:ConnectionFailed", "GT"}, {"S", "W", "W", "R*:503:00", "GT"}, {"S", "W", "X*:ConnectionFailed", "W", "R*:503:10", "GT"},
+			{"S", "W", "W", "X*:ConnectionTermination", "W", "GT"}, {"S", "W", "R*:503:00", "W", "X*:ConnectionFailed", "GT"},
+			{"S", "W", "W", "X*:ConnectionFailed", "GT"}, {"S", "W", "R*:503:11", "W", "GT"},
+		}},
+	}
+	for _, fm := range fams {
+		for _, sc := range fm.scripts {
+			reps := 1
+			if c.Thorough() {
+				reps = 3
+			}
+			for r := 0; r < reps; r++ {
+				jobs <- job{cfg: fm.cfg(), kind: "script:" + fm.name, labels: len(sc) + 1, script: sc}
 				np++
 			}
 		}
